@@ -17,7 +17,7 @@ def main(tier, replay=None):
             from harness.checks import storeshape
             wk = common.tmpdir("c14s-")
             try:
-                fails = storeshape.run_case(rp["shape"], os.path.join(wk, "w"))
+                fails = storeshape.run_case(rp["shape"], os.path.join(wk, "w"), rp.get("mag", "unit"))
             finally:
                 common.rmtree(wk)
             if fails:
